@@ -1,5 +1,5 @@
 (* C11 — HDLC link follows the normal-response-mode client procedure with mod-8 numbering. *)
-From Dlms Require Import Base FrameModel HdlcConnModel HdlcLinkProofs.
+From Dlms Require Import Base FrameModel HdlcConnModel HdlcLinkSpec HdlcLinkProofs.
 
 (* everything the link accepts - in either direction, in any of its states - is an edge of the
    NRM client procedure with the prescribed post-state, and an information frame is accepted
